@@ -153,7 +153,10 @@ static int URI_FUNC(RemoveBaseUriImpl)(URI_TYPE(Uri) * dest,
 	}
 
 	/* [01/50]	if (A.scheme != Base.scheme) then */
-				if (URI_FUNC(CompareRange)(&absSource->scheme, &absBase->scheme)) {
+				if (URI_FUNC(CompareRange)(&absSource->scheme, &absBase->scheme)
+						/* A reference without scheme inherits the base's authority when
+						 * it has none itself, so it could never resolve to this source */
+						|| (!URI_FUNC(IsHostSet)(absSource) && URI_FUNC(IsHostSet)(absBase))) {
 	/* [02/50]	   T.scheme    = A.scheme; */
 					dest->scheme = absSource->scheme;
 	/* [03/50]	   T.authority = A.authority; */
